@@ -25,7 +25,8 @@ const char *adapter_name = "regp";
 /* ---- recording sink / array source */
 static unsigned char out[1 << 16];
 static size_t outn;
-static long snk_calls, snk_fail_at;     /* emitf: the snk_fail_at-th call of the sink is refused with EIO */
+static long snk_calls, snk_fail_at;
+static unsigned emitf_odd;     /* emitf: the snk_fail_at-th call of the sink is refused with EIO */
 static ssize_t snk(void *d, const void *b, size_t n)
 {
     (void)d;
@@ -209,6 +210,15 @@ void adapter_exec(Ev *ev)
             size_t n1 = outn;
             obs(ev, rc < 0 ? -1 : rc); obs(ev, p.session.sequence);
             snk_fail_at = 0;
+            {
+                /* the session goes on over a channel attached anew - for every second case over the other kind of transport;
+                 * its sequence numbers carry on */
+                Arr none2 = { NULL, 0, 0 };
+                Source s2 = OCTET_SOURCE_INIT(src_octet, &none2);
+                Sink k2 = CHUNK_SINK_INIT(snk, NULL);
+                int other = (emitf_odd++ % 2) == 0;
+                regp_use_channel(&p, (tr == 0) != other ? RP_EP_SERIAL : RP_EP_TCP, s2, k2);
+            }
             int rc2 = regp_req_read8(&p, 0, 1);
             obs(ev, rc2 < 0 ? -1 : rc2); obs(ev, p.session.sequence);
             obs(ev, (long long)n1);
@@ -269,7 +279,7 @@ void adapter_exec(Ev *ev)
         int rc = regp_recv(&sp, &mf);
         long long errid = mf.error.id;
         if (rc >= 0) (void)regp_process(&sp, &mf);
-        regp_free(&sp, rc >= 0 ? mf.frame : NULL);
+        regp_free(&sp, mf.frame);
         obs(ev, (long long)(sarr.pos - before));
         obs(ev, rc < 0 ? -1 : 0); obs(ev, rc < 0 ? 0 : errid);
         obs(ev, L.allocs); obs(ev, L.frees); obs(ev, L.badfree); obs(ev, l_live());
@@ -306,6 +316,8 @@ void adapter_exec(Ev *ev)
         L.failnext = (int)ev->a[4] & 1;
         L.slab = ((int)ev->a[4] >> 1) & 1;      /* allocator flavour: generic (size passed) or slab (fixed blocks) */
         srcflavour = ((int)ev->a[4] >> 2) & 3;
+        snk_fail_at = (((int)ev->a[4] >> 4) & 1) ? 1 + (((int)ev->a[4] >> 5) & 1) : 0;   /* bit 4: the reply sink refuses its first (bit 5: second) call */
+        snk_calls = 0;
         B.verdict = ev->a[5]; B.vaddr = get_w32(ev->a + 6);
         B.nd = (int)ev->a[8]; B.data = ev->a + 9;
         int at = 9 + B.nd;
@@ -320,7 +332,7 @@ void adapter_exec(Ev *ev)
         int rc = regp_recv(&p, &mf);
         long long errid = mf.error.id;
         if (rc >= 0) (void)regp_process(&p, &mf);
-        regp_free(&p, rc >= 0 ? mf.frame : NULL);
+        regp_free(&p, mf.frame);          /* as in the documented receive loop: whatever regp_recv said, the frame it handed out (if any) is released once */
         obs(ev, rc < 0 ? -1 : 0); obs(ev, rc < 0 ? 0 : errid);
         obs(ev, L.allocs); obs(ev, L.frees); obs(ev, L.badfree); obs(ev, l_live());
         obs(ev, B.ncalls);
